@@ -6,7 +6,7 @@ CHECKS = {
  # id: (level, engine, technique, text, note, design_ref)
  "C01": ("model_checking", "E1", "explicit-state search (own parallel BFS; stateright selectable) over edit histories of labelled template repositories; real git diff in every state; diff-relative oracle from line labels known by construction",
          "7 templates (siblings, cross-file Markdown/HTML, nested, Rust multi-line tag in a 3-line comment, cycle + duplicate names + missing target + unnamed, repeated/blank lines, diff-syntax payload without trailing newline); every history of ≤2 (thorough ≤3) line insertions/deletions/replacements and tag-line edits, states merged by resulting contents; `git diff -U{0,1,3}` (thorough 0..10) fed to the real code in diff and diff+glob mode; L1 must/must-not/don't-care content flags from the labels of the diff's -/+ lines, L2 affects diagnostics from the observed flags (same-file, cross-file, comma lists, cycles, duplicates, missing targets), L3 exit status; plus worktree/--cached/commit-to-commit/rename -M diffs of all depth-≤1 (≤2) states through the CLI in real repositories",
-         "git 2.39 trusted to print the diff; three genuine defects are recorded as known findings (two pinned by the repository's own tests, one in the third-party unidiff crate)", "§2 C01"),
+         "git 2.39 trusted to print the diff; four classes of genuine defects are recorded as known findings (three pinned by the repository's own tests, one in the third-party unidiff crate); template T1 also carries a warning-severity sort rule so a second validator reports on the affects file", "§2 C01"),
  "C02": ("model_checking", "E1", "explicit-state search (own parallel BFS) over edit histories incl. character-level tag-line edits; real git diff; per-block edit classification fixes selection and content flag; verdicts compared with a full scan of the same tree",
          "5 rule-carrying templates (Python over two files, JS with content on the tag's line and a multi-byte character before the tag, JS tag on line 2 of a 3-line comment, Markdown, nested); every history of ≤2 (thorough ≤3) whole-line edits and 10 kinds of character-level tag edits (inside/outside the `<`…`>` span, end-tag comment, same-line content); `git diff -U{0,3}` (thorough 0,1,3,10) without path argument, with `**` and with one file as path argument; selected set, is_content_modified and every selected block's diagnostics vs the full scan",
          "lines pairwise distinct so git's diff equals the edit script; whole-line edits adjoining a tag line are don't-care; same known findings as C01", "§2 C02"),
@@ -16,8 +16,8 @@ CHECKS = {
  "C04": ("model_checking", "E1", "explicit-state search (parallel BFS; stateright selectable) over token soups per grammar + exhaustive one-mutation neighbourhoods of seed files + real git diffs of hostile files; supervised child process attributes aborts/hangs",
          "per grammar every sequence of ≤3 (thorough ≤4) tokens over comment delimiters, tag fragments, a rule-laden start tag, quotes, newline, NBSP, combining mark, emoji, and ≤4 (≤5) over the core tokens; every single-token insertion/replacement/deletion at every token boundary of a seed file for all 39 suffixes (thorough: pairs of insertions); every real `git diff` between files of ≤2 (≤3) diff-look-alike lines; each run in scan and diff mode must end in a report or an error, never a panic, abort or hang (10 s watchdog)",
          "\"any UTF-8 string\" is covered only through the token alphabets; tree-sitter internals are exercised, not modelled", "§2 C04"),
- "C05": ("model_checking", "E1", "explicit-state search (parallel BFS; stateright selectable) over attribute lists printed into three host comment forms; print/parse round trip against the printed AST",
-         "every attribute list of 0..2 (thorough 0..3) attributes over (5 names incl. non-ASCII and duplicate) × (14 value forms: bare, unquoted ASCII / non-ASCII / with - and _, empty, with space, `>`, other quote, `=<`, `</block>`, non-ASCII, a whole start tag) × 3 separators × 3 `=` layouts, 3 closing spellings, 8 surrounding noises, in `#`, `/* */` and `<!-- -->` hosts; attributes (last duplicate wins) and position of `<` compared; 17 look-alikes × noises × hosts alone and beside real blocks; 6 end-tag spellings",
+ "C05": ("model_checking", "E1", "explicit-state search (parallel BFS; stateright selectable) over attribute lists printed into six host comment forms; print/parse round trip against the printed AST",
+         "every attribute list of 0..2 (thorough 0..3) attributes over (5 names incl. non-ASCII and duplicate) × (14 value forms: bare, unquoted ASCII / non-ASCII / with - and _, empty, with space, `>`, other quote, `=<`, `</block>`, non-ASCII, a whole start tag) × 3 separators × 3 `=` layouts, 3 closing spellings, 8 surrounding noises, in `#`, `/* */`, `<!-- -->`, `//`, SQL `--` and Rust `///` hosts (names and values also containing `--`, `//`, `#`); attributes (last duplicate wins) and position of `<` compared; 17 look-alikes × noises × hosts alone and beside real blocks; 6 end-tag spellings",
          "4–6 attributes not enumerated; host comments delivered by tree-sitter (C03)", "§2 C05"),
  "C06": ("model_checking", "E1", "explicit-state search (level-synchronous parallel BFS; stateright selectable) over content-line sequences, real validator executed in every state against a reference sorter",
          "every sequence of ≤4 (thorough ≤5) content lines over a 16-line alphabet (ordered, equal, prefix-related, indented, trailing blank, blank, numeric-looking, pattern lines, case) plus an extended unicode/number alphabet, under every direction spelling × pattern × format; the real parse+validate pipeline runs in every state and must agree with the reference on presence, uniqueness and location of the diagnostic",
@@ -32,16 +32,16 @@ CHECKS = {
          "full product of 8 host comment forms × 0..2 comment lines before and after the tag × multi-line tag × content on the tag's line × 3 indentations × multi-byte text × 8 rule kinds (sorted, sorted by regex group, unique, unique by regex group, pattern; line-count, check-lua, affects) × offending line 1..3 (12.6k applicable cases): the range must delimit exactly the offending key, or the start tag from `<` to `>`",
          "check-ai's range shares check-lua's code path and is exercised in C19", "§2 C10"),
  "C11": ("model_checking", "E1+E2", "explicit-state search over repository configurations through the real CLI + choice-prefix DFS over block-map and validator-body orders through the library",
-         "every repository of ≤2 (thorough ≤3) blocks over 2 files × 11 rule combinations (each rule absent / satisfied / violated by construction) × 7 severity spellings: exit status 1 iff an error-severity diagnostic is expected, stderr one JSON object with every expected (file, block, code, severity) exactly once, root-relative keys, nothing printed without diagnostics, `list` exits 0 with all blocks; the same states under every block-map order × every order of the validator thread bodies (≈470k executions) for the exactly-once clause",
+         "every repository of ≤2 (thorough ≤3) blocks over 2 files × 13 rule combinations (two of them flagging the same position with two rules) (each rule absent / satisfied / violated by construction) × 7 severity spellings: exit status 1 iff an error-severity diagnostic is expected, stderr one JSON object with every expected (file, block, code, severity) exactly once, root-relative keys, nothing printed without diagnostics, `list` exits 0 with all blocks; the same states under every block-map order × every order of the validator thread bodies (≈470k executions) for the exactly-once clause",
          "which rules a block violates is fixed by construction (C06–C09 decide rule semantics)", "§2 C11"),
  "C12": ("model_checking", "E1", "explicit-state search (parallel BFS; stateright selectable) over well-nested kit files; in every state every single-tag damage is applied and the real code must fail naming the file",
-         "for each grammar (all 39 suffixes) every well-nested file of ≤2 (thorough ≤3) kit segments × every tag × {deleted, duplicated, lost with its comment} × {alone, first, last, between healthy files} × {scan, list, diff, diff+glob}: the run must fail at parsing with an error naming the damaged file",
+         "for each grammar (all 39 suffixes) every well-nested file of ≤2 (thorough ≤3) kit segments × every tag × {deleted, duplicated, lost with its comment} × {alone, first, last, between healthy files} × {scan, list, diff, diff+glob, diff+non-matching glob}, plus stray tags (`</ block>`, `< /block >`, `<block>`, `</block>`) appended in a comment of their own: the run must fail at parsing with an error naming the damaged file",
          "the all-lines-added diff emitter is validated against real git before the search; bounded scope", "§2 C12"),
  "C13": ("fault_enumeration", "E1+E2", "exhaustive enumeration of malformation × position × placement × block-map order, middle position under every schedule of the validator seams; real CLI for status and message",
          "81 malformations over every rule kind (unknown direction/format, non-numeric keys at each position, bad regex in 5 attributes, 16 bad line-count expressions, colon-less affects references, unknown severities, Lua script empty/missing/directory/invalid UTF-8/no validate, empty AI condition, missing key) × {alone, first, middle, last} × {same file, own file} × all map orders, the middle position under all schedules; every malformation × 3 placements through the real CLI: never exit 0, never a panic, always a message",
          "the property's qualifiers are honoured (content present, violation present, block modified)", "§2 C13"),
  "C14": ("model_checking", "E1", "exhaustive enumeration (explicit-state grid) of violating-validator subsets × layouts × flag subsets × block-map orders through the library with recording AI endpoint and logging Lua scripts; CLI for flag parsing",
-         "all 128 subsets of validators having a violating block × 3 layouts × {--disable, --enable} × flag sets (quick: sizes ≤2 and ≥6 everywhere, all 128 where all seven fire; thorough: all) × all map orders: codes = unrestricted codes minus / restricted to the named validators, status follows, no AI request and no Lua call from a switched-off validator; 17 flag spellings through the real CLI (repetition = union; both flags, unknown, padded, comma names rejected before validation)",
+         "all 128 subsets of validators having a violating block × 3 layouts × {--disable, --enable} × flag sets (quick: sizes ≤2 and ≥6 everywhere, all 128 where all seven fire; thorough: all) × all map orders: codes = unrestricted codes minus / restricted to the named validators, status follows, no AI request and no Lua call from a switched-off validator; 19 flag spellings through the real CLI (repetition = union; both flags, unknown, padded, comma names rejected before validation)",
          "which validator fires on which block is fixed by construction", "§2 C14"),
  "C15": ("model_checking", "E1", "exhaustive enumeration (explicit-state grid) of trees × glob sets × ignore sets × diffs against a set-algebra reference; library over an in-memory tree + real CLI in real directories with hidden/git-ignored files, real git diffs, every cwd",
          "245k library cases (all trees of ≤3 paths incl. directories named a and b, spaces, dots × 0..2 globs × 0..2 ignores × diff naming ≤2 files or nothing) and 3.5k CLI cases × every directory as cwd (16k runs) with hidden files, a .gitignore'd directory and real `git diff`: listed files = ((walk ∖ hidden ∖ git-ignored) ∩ globs ∪ diff files) ∖ --ignore",
@@ -53,13 +53,13 @@ CHECKS = {
          "for 9 values of BLOCKWATCH_LUA_MODE a probe script enumerates every table/function/userdata reachable from _G, _ENV and the string metatable through fields, keys and metatables (≈130 values, ≈270 edges per mode) and returns all reachable function paths; default class: the set must equal the allow-list (base minus dofile/loadfile/require + coroutine/table/string/utf8/math) with none of io/os/package/debug/require/dofile/loadfile; safe adds io/os/package/require but no debug and no working native loader; unsafe adds debug and native loading; 19 concrete escape attempts per default-class value with a canary file",
          "Lua has no ambient authority beyond reachable values; upvalues of C library functions are unreachable without debug; behaviour of package.loadlib is probed by calling it", "§2 C17"),
  "C18": ("model_checking", "E1+E2", "explicit-state search over block sets × stateless choice-prefix DFS over every schedule of the scheduling seams (JoinSet delivery order, thread-body order) and every block-map order; real code re-executed per schedule",
-         "every set of ≤3 (thorough ≤4) scripted blocks over 8 script behaviours × 2 files; for each, all delivery orders of the check-lua JoinSet × thread-body orders × map orders (55k executions quick); scripts log every call, so exactly-once, file, line, attributes and content are compared; any failing script must fail the run in every schedule; plus content × pattern × attribute cases, 8/16/40 blocks under 3 delivery orders (capped) and a labelled free-running CLI supplement",
+         "every set of ≤3 (thorough ≤4) scripted blocks over 9 script behaviours (incl. a script keeping state outside validate) × 2 files; for each, all delivery orders of the check-lua JoinSet × thread-body orders × map orders (55k executions quick); scripts log every call, so exactly-once, file, line, attributes and content are compared; any failing script must fail the run in every schedule; plus content × pattern × attribute cases, 8/16/40 blocks under 3 delivery orders (capped) and a labelled free-running CLI supplement",
          "tokio JoinSet contract trusted; intra-body interleavings not explored (bodies share only an immutable Arc)", "§2 C18"),
  "C19": ("fault_enumeration", "E1+E2", "exhaustive enumeration of reply/fault assignments to block sets × all delivery orders (choice-prefix DFS over the seams) against a recording fake endpoint keyed by request content",
          "every set of ≤2 (thorough ≤3) AI blocks over 10 replies and 11 endpoint faults × 2 files × all delivery orders; exactly one faithful request per block (path, bearer key, model, verbatim user message), OK-class ⇒ no diagnostic, other reply ⇒ one diagnostic quoting it on the start tag, any fault ⇒ run fails in every order; verbatim transport of 8 conditions × 7 contents × 4 patterns (quotes, backslashes, newlines, control characters, Unicode); whole-run faults: no key, empty key, connection refused",
          "async-openai/reqwest trusted for wire encoding; 5xx/429 (retried by the library) are outside the property's fault set", "§2 C19"),
  "C20": ("model_checking", "E2", "stateless exploration of every owned order (block-map iteration, file discovery, diff-section order) × choice-prefix DFS over the scheduling seams; one canonical observable per repository; CLI for every cwd",
-         "6 catalogue repositories (mixed severities, cross-file affects in diff mode, diff + glob, Lua + AI + sync rules, list with diff, a malformed rule): all block-map orders × file-discovery orders (quick: 3 of them) × all diff-section orders × every schedule of the seams (quick: ≤3 deviations, 27k executions; thorough: all) must give one single status + diagnostic multiset / listed blocks / error; every directory as cwd through the real CLI; fresh processes with 1/16 runtime workers as a labelled sampling supplement",
+         "8 catalogue repositories (mixed severities, cross-file affects in diff mode, diff + glob, Lua (stateless and stateful) + AI + sync rules, list with diff, a malformed rule, one block name modified in two files, a directory named like a source file): all block-map orders × file-discovery orders (quick: 3 of them) × all diff-section orders × every schedule of the seams (quick: ≤3 deviations, 27k executions; thorough: all) must give one single status + diagnostic multiset / listed blocks / error; every directory as cwd through the real CLI; fresh processes with 1/16 runtime workers as a labelled sampling supplement",
          "per-process hash seeds of maps other than the block map and real thread timing are not enumerable: argued order-insensitive, sampled by the supplement", "§2 C20"),
  "C09": ("model_checking", "E1", "explicit-state search (parallel BFS; stateright selectable) over content-line sequences × layouts, each state carrying the full (operator, spacing, N) grid",
          "every sequence of ≤5 (thorough ≤7) content lines over {statement, blank, whitespace-only, indented, comment, nested start/end tag} in every layout (tag on own line, content on the tag's line, both tags in one comment, adjacent comments) × 5 operators × 3 spacings × N 0..7; presence and data.actual/op/expected of the diagnostic compared with the reference count",
